@@ -368,8 +368,8 @@ type c25Op struct {
 
 func (o c25Op) String() string {
 	switch o.Kind {
-	case "req":
-		return fmt.Sprintf("req(tx=%v %s)", o.Tx, strings.Join(o.Stmts, "; "))
+	case "req", "downflap":
+		return fmt.Sprintf("%s(tx=%v %s)", o.Kind, o.Tx, strings.Join(o.Stmts, "; "))
 	case "failn":
 		return fmt.Sprintf("failn(%d)", o.N)
 	case "down":
@@ -381,12 +381,12 @@ func (o c25Op) String() string {
 func c25GenOps(rt *rapid.T) []c25Op {
 	n := rapid.IntRange(3, vstat.Scale(16, 40)).Draw(rt, "nOps")
 	serial := 0
-	kinds := []string{"req", "req", "req", "req", "req", "req", "snap", "down", "up", "failn", "flap", "restart"}
+	kinds := []string{"req", "req", "req", "req", "req", "req", "snap", "down", "up", "failn", "flap", "downflap", "restart"}
 	var ops []c25Op
 	for i := 0; i < n; i++ {
 		o := c25Op{Kind: rapid.SampledFrom(kinds).Draw(rt, "kind")}
 		switch o.Kind {
-		case "req":
+		case "req", "downflap":
 			k := rapid.SampledFrom([]int{1, 1, 2, 2, 3, 4}).Draw(rt, "nStmts")
 			for j := 0; j < k; j++ {
 				o.Stmts = append(o.Stmts, c25GenStmt(rt, &serial))
@@ -474,6 +474,7 @@ func TestVerif_C25_Service(t *testing.T) {
 		var trace []string
 		tenure := 0
 		multi, faults := false, false
+		flapOutageMark := -1 // number of expected changes recorded before the last flap that happened while the endpoint was failing
 		doReq := func(stmts []string, tx bool) bool {
 			idx, err := exec(stmts, tx)
 			if err != nil {
@@ -497,6 +498,31 @@ func TestVerif_C25_Service(t *testing.T) {
 			return true
 		}
 
+		doFlap := func() {
+			faults = true
+			ep.mu.Lock()
+			failing := ep.down || ep.failNext > 0
+			ep.mu.Unlock()
+			if failing {
+				flapOutageMark = len(expected)
+				rec.Label("flap-during-outage")
+			}
+			ep.setTenure(-1)
+			n.svc.SetLeader(false)
+			n.svc.SetLeader(true)
+			// The service handles the two messages in order; "true" is handled (and
+			// IsLeader set again) only after the old leader loop has fully stopped.
+			deadline := time.Now().Add(30 * time.Second)
+			for time.Now().Before(deadline) {
+				if len(n.svc.leaderObCh) == 0 && n.svc.IsLeader() {
+					break
+				}
+				time.Sleep(200 * time.Microsecond)
+			}
+			time.Sleep(5 * time.Millisecond)
+			tenure++
+			ep.setTenure(tenure)
+		}
 		for _, o := range ops {
 			trace = append(trace, o.String())
 			rec.Label("op:" + o.Kind)
@@ -527,22 +553,21 @@ func TestVerif_C25_Service(t *testing.T) {
 				ep.failNext = o.N
 				ep.mu.Unlock()
 			case "flap":
-				faults = true
-				ep.setTenure(-1)
-				n.svc.SetLeader(false)
-				n.svc.SetLeader(true)
-				// The service handles the two messages in order; "true" is handled (and
-				// IsLeader set again) only after the old leader loop has fully stopped.
-				deadline := time.Now().Add(30 * time.Second)
-				for time.Now().Before(deadline) {
-					if len(n.svc.leaderObCh) == 0 && n.svc.IsLeader() {
-						break
-					}
-					time.Sleep(200 * time.Microsecond)
+				doFlap()
+			case "downflap":
+				// an outage begins, a request is made, and while its batch is being
+				// retried the service loses and regains leadership
+				ep.mu.Lock()
+				ep.down, ep.hang = true, false
+				ep.mu.Unlock()
+				if len(o.Stmts) > 1 {
+					multi = true
 				}
-				time.Sleep(5 * time.Millisecond)
-				tenure++
-				ep.setTenure(tenure)
+				if !doReq(o.Stmts, o.Tx) {
+					rt.Skip("execute failed")
+				}
+				time.Sleep(cf.BatchDelay + 30*time.Millisecond)
+				doFlap()
 			case "restart":
 				faults = true
 				n.close()
@@ -621,13 +646,22 @@ func TestVerif_C25_Service(t *testing.T) {
 		}
 
 		// at least once, with its index
-		for _, c := range expected {
+		for i, c := range expected {
 			if ok, _ := has(ds, c, false); ok {
 				continue
 			}
 			later := !c.Tx && c.Stmt > 0
 			found, at := has(ds, c, true)
+			indexSeen := false
+			for _, d := range ds {
+				if d.Msg.Index == c.Index {
+					indexSeen = true
+				}
+			}
 			switch {
+			case !indexSeen && i < flapOutageMark && !(found && at == 0 && later):
+				fail("C25/unsent-batch-skipped-after-leader-flap", "a batch being retried when the service loses and regains leadership is never sent",
+					"change %s (statement %d of %d, tx=%v): nothing with index %d was ever delivered; the request preceded a leadership flap that happened while the endpoint was failing", c.key(), c.Stmt+1, c.NStmt, c.Tx, c.Index)
 			case found && at == 0 && later:
 				fail("C25/later-statement-labelled-index-0", "events of the 2nd+ statement of a non-transactional request are delivered with index 0",
 					"change %s (statement %d of %d, tx=%v) was delivered labelled index %d instead of %d", c.key(), c.Stmt+1, c.NStmt, c.Tx, at, c.Index)
